@@ -2004,6 +2004,7 @@ func (self *LockDB) Lock(serverProtocol ServerProtocol, command *protocol.LockCo
 	}
 
 	lockManager := self.GetOrNewLockManager(command)
+	verifPoint(9)
 	if lockPriorityLevel == 0 {
 		lockManager.glock.LowPriorityLock()
 	} else {
@@ -2325,6 +2326,7 @@ func (self *LockDB) UnLock(serverProtocol ServerProtocol, command *protocol.Lock
 		return nil
 	}
 
+	verifPoint(10)
 	if lockPriorityLevel == 0 {
 		lockManager.glock.LowPriorityLock()
 	} else {
